@@ -11,7 +11,7 @@
 (* Engine state that survives between calls: facts, enable flags, no-loop set, agenda.        *)
 EXTENDS GrlExpr
 
-Groups == {"MAIN", "G1", "G2"}
+Groups == {"MAIN", "G1", "G1.sub"}      \* the third name extends the second with a dot: group names are opaque strings
 
 (* engine state record *)
 St0(facts, rules) == [facts |-> facts, en |-> [k \in DOMAIN rules |-> rules[k].enabled], fg |-> {},
